@@ -271,10 +271,10 @@ def run_bs(eng, p):
 
 
 def contracts(tier):
-    from . import traversals
+    from . import traversals, rebuild
     maxn = 5 if tier == 'thorough' else 4
     sh = all_shapes(maxn)
-    cs = list(traversals.contracts(tier))
+    cs = list(traversals.contracts(tier)) + rebuild.contracts(tier)
     pairs = list(itertools.product(range(len(sh)), repeat=2))
     # group the pairs into chunks: one contract (= one process) per chunk
     nchunks = 64 if tier == 'thorough' else 16
